@@ -55,6 +55,27 @@ import (
 var c03Repl = []interface{}{nil, 0, -1, 4294967295, 1.5, "", "x", true, []interface{}{}, []interface{}{nil}, map[string]interface{}{},
 	map[string]interface{}{"a": nil}, "\"", "é\x80", []interface{}{"x", 1}}
 
+// c03Fresh copies a replacement value: the table is shared by all cases of a worker, and a later confusion may write INTO
+// a map or array that an earlier one put into a document (a shared, mutated - in the end cyclic - replacement made a
+// thorough run hang in the harness itself)
+func c03Fresh(v interface{}) interface{} {
+	switch t := v.(type) {
+	case map[string]interface{}:
+		m := make(map[string]interface{}, len(t))
+		for k, x := range t {
+			m[k] = c03Fresh(x)
+		}
+		return m
+	case []interface{}:
+		a := make([]interface{}, len(t))
+		for i, x := range t {
+			a[i] = c03Fresh(x)
+		}
+		return a
+	}
+	return v
+}
+
 type c03Pos struct {
 	path []interface{}
 }
@@ -79,6 +100,9 @@ func c03Inner(s string) (interface{}, bool) {
 }
 
 func c03Positions(v interface{}, path []interface{}, out *[]c03Pos) {
+	if len(path) > 64 {
+		return
+	}
 	if len(path) > 0 {
 		*out = append(*out, c03Pos{append([]interface{}{}, path...)})
 	}
@@ -135,7 +159,7 @@ func c03Confuse(root interface{}, k, r int) interface{} {
 			n := len(c03Repl)
 			switch {
 			case r%(n+4) < n:
-				m[key] = c03Repl[r%(n+4)]
+				m[key] = c03Fresh(c03Repl[r%(n+4)])
 			case r%(n+4) == n:
 				delete(m, key)
 			default:
@@ -151,7 +175,7 @@ func c03Confuse(root interface{}, k, r int) interface{} {
 			n := len(c03Repl)
 			switch {
 			case r%(n+4) < n:
-				a[key] = c03Repl[r%(n+4)]
+				a[key] = c03Fresh(c03Repl[r%(n+4)])
 			case r%(n+4) == n:
 				return append(a[:key:key], a[key+1:]...)
 			default:
@@ -478,7 +502,7 @@ func c03Claims(variant string, k, r int) string {
 			n := len(c03Repl)
 			switch x := ri % (n + 3); {
 			case x < n:
-				valid[key] = c03Repl[x]
+				valid[key] = c03Fresh(c03Repl[x])
 			default:
 				delete(valid, key)
 			}
